@@ -34,3 +34,26 @@ Lemma tie_gex_names : In gex256 gex_algs /\ In gex256 rec_chg_names.
 Proof. split; cbn; tauto. Qed.
 Lemma tie_2048_warning : gex_warn_text = k2_WARN_2048BIT_MODULUS /\ hk_two2k_warning = k2_WARN_2048BIT_MODULUS.
 Proof. split; reflexivity. Qed.
+
+(* ---- integer kernels: the hand-written model functions equal the functions the translator derives statement by statement
+        from the current source (kexdh.py __adjust_key_size, ssh_socket.py send_packet / read_packet) ---- *)
+From Coq Require Import ZArith Lia ZifyBool.
+Open Scope Z_scope.
+
+Lemma tie_adjust_key_size : forall size, adjust_key_size size = src_adjust_key_size size.
+Proof.
+  intros size. unfold adjust_key_size, src_adjust_key_size. cbv zeta.
+  rewrite Zodd_mod. unfold Zeq_bool.
+  pose proof (Z.mod_pos_bound (Z.shiftr (size * 8) 3) 2 ltac:(lia)) as Hb.
+  destruct (Z.shiftr (size * 8) 3 mod 2 ?= 1) eqn:C; destruct (Z.shiftr (size * 8) 3 mod 2 =? 0) eqn:E; cbn [negb];
+    try reflexivity; try (apply Z.compare_eq in C; lia); try (rewrite Z.compare_lt_iff in C; lia); try (rewrite Z.compare_gt_iff in C; lia).
+Qed.
+
+Lemma tie_send_packet_padding : forall n, pad_len n = src_send_packet_padding n.
+Proof. intros n. unfold pad_len, src_send_packet_padding. cbv zeta. destruct (- (n + 5) mod 8 <? 4); reflexivity. Qed.
+
+Lemma tie_send_packet_length : forall n, n + pad_len n + 1 = src_send_packet_length n.
+Proof. intros n. unfold pad_len, src_send_packet_length. cbv zeta. destruct (- (n + 5) mod 8 <? 4); reflexivity. Qed.
+
+Lemma tie_ssh1_padding_length : forall plen, 8 - plen mod 8 = src_ssh1_padding_length plen.
+Proof. reflexivity. Qed.
